@@ -53,9 +53,44 @@ def plan(tier):
     return {"runs": 1000000, "chunk": 1000, "wall_cap": 900}
 
 
+_STATE = {"memo_slots": None}
+
+
 def prepare(tier):  # pylint: disable=unused-argument
     RG.self_check()
     common.isolate_locks()
+    _memo_slots()
+
+
+def _memo_slots():
+    """The lazily filled process-wide tables of the two verdict modules: containers that are
+    empty right after import, and functools caches (PolyPerms._CACHE and
+    InsertionEncodablePerms._CACHE on the pinned tree; whatever they have become after a
+    refactoring).  Emptying them is memo loss; a table that is filled at import time is data,
+    not a memo, and is left alone."""
+    if _STATE["memo_slots"] is None:
+        import sys  # pylint: disable=import-outside-toplevel
+
+        import permuta.permutils  # noqa: F401  pylint: disable=import-outside-toplevel,unused-import
+
+        slots = {"poly": [], "insenc": []}
+        for which, modname in (("poly", "permuta.permutils.polynomial"), ("insenc", "permuta.permutils.insertion_encodable")):
+            mod = sys.modules.get(modname)
+            if mod is None:
+                continue
+            for entry in histsim.snapshot_process_state([mod]):
+                saved = entry[2]
+                if saved is None or (hasattr(saved, "__len__") and len(saved) == 0):
+                    slots[which].append(entry)
+        _STATE["memo_slots"] = slots
+    return _STATE["memo_slots"]
+
+
+def _flush_memos(which):
+    slots = _memo_slots()
+    for key in ("poly", "insenc"):
+        if which in (key, "both"):
+            histsim.restore_process_state(slots[key])
 
 
 # --- generation ----------------------------------------------------------------------------
@@ -177,7 +212,7 @@ def execute(case):
     pm = common.lazy_permuta()
     import permuta.cli as cli  # pylint: disable=import-outside-toplevel
     from permuta.permutils import (  # pylint: disable=import-outside-toplevel
-        InsertionEncodablePerms, PolyPerms, is_finite, is_insertion_encodable, is_insertion_encodable_maximum,
+        is_finite, is_insertion_encodable, is_insertion_encodable_maximum,
         is_insertion_encodable_rightmost, is_non_polynomial, is_polynomial)
 
     hist = histsim.Hist()
@@ -187,9 +222,7 @@ def execute(case):
         lock._reset()  # pylint: disable=protected-access
     if not case.get("keep_memo"):
         common.clear_functools_caches()
-        for table in (getattr(PolyPerms, "_CACHE", None), getattr(InsertionEncodablePerms, "_CACHE", None)):
-            if isinstance(table, dict):
-                table.clear()
+        _flush_memos("both")
     else:
         out.probe("memo_kept_from_earlier_histories")
     uni = [tuple(p) for p in case["universe"]]
@@ -286,10 +319,7 @@ def execute(case):
                 break
             continue
         if kind == "memo_flush":
-            if op["which"] in ("poly", "both") and isinstance(getattr(PolyPerms, "_CACHE", None), dict):
-                PolyPerms._CACHE.clear()  # pylint: disable=protected-access
-            if op["which"] in ("insenc", "both") and isinstance(getattr(InsertionEncodablePerms, "_CACHE", None), dict):
-                InsertionEncodablePerms._CACHE.clear()  # pylint: disable=protected-access
+            _flush_memos(op["which"])
             out.fault("memo_flush")
             out.probe("memo_flush")
             touched_by.clear()
